@@ -495,6 +495,16 @@ func (c *Cursor) Filter(ctx context.Context, idxStr string, val []interface{}) e
 	} else {
 		if c.max != nil {
 			err = c.cursor.Ceil(ctx, c.max)
+			if err == nil {
+				if _, _, ok := c.cursor.Get(); !ok {
+					// every key is below the bound, so Ceil ran off the end:
+					// the scan starts at the largest key
+					c.cursor, err = c.t.Tree.Root.Cursor(ctx)
+					if err == nil {
+						err = c.cursor.Max(ctx)
+					}
+				}
+			}
 		} else {
 			err = c.cursor.Max(ctx)
 		}
